@@ -532,7 +532,7 @@ func mergeStats(id, tier string, seed uint64, c propCfg, runDir string) (map[str
 	}
 	if c.TV {
 		cov["programs"] = totalCounts["programs"]
-		cov["disagreements_checked"] = totalCounts["field_checks"]
+		cov["disagreements_checked"] = totalCounts["disagreements_checked"]
 	}
 	if c.Level == "fault_enumeration" {
 		if v, ok := totalCounts["scenarios_exhaustive"]; ok {
